@@ -145,7 +145,7 @@ def run(out: Outcome) -> None:
             if name in ("HI", "PSI") and rep_i == 0:    # heavily tied statistics (exact ties with the observed value)
                 ref = [float(rng.randint(0, 3)) for _ in range(n)]
                 test = [float(rng.randint(0, 3)) for _ in range(m)]
-            method = methods[(i + rep_i) % len(methods)]
+            method = methods[(i + rep_i + out.seed) % len(methods)]       # the detector x method pairing rotates with the seed
             one(out, rng, name, cls, params, ref, test, rng.choice([10, 20]), method, lines, expect, jobs=(1, 2) if i % 3 == 0 else (1,))
     # multivariate samples (2-3 columns) for MMD: the pooled sample is re-split by ROWS
     for cols in (2, 3):
@@ -177,6 +177,21 @@ def run(out: Outcome) -> None:
         if runs[0] != runs[1]:
             out.violation(f"permutation test with random_state={rs} is not repeatable", {"random_state": rs})
         out.case({"repeatable": rs})
+    # ONE detector with ONE callback comparing the same batch again and again (and another batch in between): a fixed random_state means the same
+    # permutations every time
+    for rs in (0, 7):
+        cbr = PermutationTestDistanceBased(num_permutations=15, random_state=rs, num_jobs=1, name="perm")
+        detr = EMD(callbacks=[cbr])
+        ra, ta, tb = [rng.gauss(0, 1) for _ in range(8)], [rng.gauss(0.5, 1) for _ in range(6)], [rng.gauss(-0.3, 1) for _ in range(7)]
+        detr.fit(X=np.array(ra))
+        seen = []
+        for batch in (ta, ta, tb, ta):
+            _, lg = detr.compare(X=np.array(batch))
+            seen.append((tuple(float(v) for v in lg["perm"]["permuted_statistics"]), float(lg["perm"]["p_value"])))
+        if not (seen[0] == seen[1] == seen[3]):
+            out.violation(f"permutation test with random_state={rs}: the same detector comparing the same batch repeatedly reports p = {[s_[1] for s_ in (seen[0], seen[1], seen[3])]}",
+                          {"random_state": rs, "ref": ra, "test": ta, "kind": "callback reuse"})
+        out.case({"callback_reuse": rs})
     # worker pools under every multiprocessing START METHOD (fork: Linux default up to 3.13; spawn: Windows / macOS default; forkserver: Linux default from 3.14):
     # a fresh interpreter sets the method, runs the callback with num_jobs = 2 and must report what this process reports with num_jobs = 1
     import json
